@@ -13,12 +13,15 @@
 package main
 
 import (
+	"bytes"
 	"context"
 	"encoding/base64"
 	"fmt"
+	"io"
 	"math/rand"
 	"regexp"
 	"strings"
+	"time"
 
 	"github.com/olareg/olareg"
 	"github.com/olareg/olareg/internal/verif/vh"
@@ -421,6 +424,43 @@ func (e *env) directed(rng *rand.Rand) {
 			}
 			break
 		}
+	}
+	// a session that the client itself ends (DELETE) while the body of its own PATCH / completing PUT is still on its
+	// way: the rest of the body belongs to no session - a client matter, answered with a 4xx
+	for _, meth := range []string{"PATCH", "PUT"} {
+		ns := vh.Do(e.srv, vh.Req{Method: "POST", URL: "/v2/r/blobs/uploads/"})
+		l := ns.H.Get("Location")
+		if ns.Status != 202 || l == "" {
+			continue
+		}
+		pth := strings.SplitN(l, "?", 2)[0]
+		part1, part2 := bytes.Repeat([]byte("p"), 3000), bytes.Repeat([]byte("q"), 70000)
+		u2 := l
+		if meth == "PUT" {
+			u2 = l + "&digest=" + vh.DigestOf("sha256", append(append([]byte{}, part1...), part2...))
+		}
+		pr, pw := io.Pipe()
+		done := make(chan vh.Resp, 1)
+		go func() { done <- vh.DoStream(e.srv, meth, u2, nil, pr) }()
+		if _, err := pw.Write(part1); err != nil {
+			_ = pw.Close()
+			<-done
+			continue
+		}
+		for k := 0; k < 300; k++ { // until the handler has stored the first part
+			if g := vh.Do(e.srv, vh.Req{Method: "GET", URL: pth}); g.H.Get("Range") == "0-2999" {
+				break
+			}
+			time.Sleep(2 * time.Millisecond)
+		}
+		vh.Do(e.srv, vh.Req{Method: "DELETE", URL: pth})
+		_, _ = pw.Write(part2)
+		_ = pw.Close()
+		rs := <-done
+		rq := vh.Req{Method: meth, URL: u2, UnknownLen: true}
+		e.observe(rq, rs, "", "directed:session-ended-mid-request")
+		e.r.Count("directed_conditions", 1)
+		e.r.Distinct("directed_classes", "session-ended-mid-request:"+meth)
 	}
 	for _, c := range cases {
 		if c.only != any && c.only != e.kind {
